@@ -209,7 +209,7 @@ def run_property(pid, items, bounded=(), tier='quick', seed=0, level='proof', tr
     t0 = time.time()
     global _GEN_CTX
     _GEN_CTX = (repo, items)
-    gens = _generate_all(len(items), float(os.environ.get('PYVC_GEN_WALL_S', '150' if tier == 'quick' else '600')))
+    gens = _generate_all(len(items), float(os.environ.get('PYVC_GEN_WALL_S', '150' if tier == 'quick' else '600')) * solve.load_factor())
     for it, (obls, tl, fi, stats, trace) in zip(items, gens):
         it.tool_limit, it.func_info, it.stats = tl, fi, stats
         if tl is None:
@@ -322,7 +322,7 @@ def run_property(pid, items, bounded=(), tier='quick', seed=0, level='proof', tr
             classify('runtime contract of %s violated' % cid, cid, None, w, {'source': 'native sweep (bounded)'})
     # ---------------------------------------------------------------- bounded components
     bounded_out = []
-    limit = float(os.environ.get('PYVC_BOUNDED_WALL_S', '600' if tier == 'quick' else '3600'))
+    limit = float(os.environ.get('PYVC_BOUNDED_WALL_S', '600' if tier == 'quick' else '3600')) * solve.load_factor()
     for b, r in zip(bounded, _run_bounded(bounded, tier, seed, known, limit)):
         bname = '%s.%s' % (getattr(b, '__module__', '?'), getattr(b, '__name__', '?'))
         if r.get('__error__') == 'timeout':
@@ -361,6 +361,10 @@ def run_property(pid, items, bounded=(), tier='quick', seed=0, level='proof', tr
         'contracts': len(items),
         'by_backend': by_backend, 'solver_s': round(solver_cpu, 2), 'generate_s': round(gen_s, 2), 'solve_wall_s': round(solve_s, 2),
         'samples': samples,
+        'slowest_obligations': [{'obligation': o.name, 's': r.get('wall_s'), 'backend': r.get('backend')}
+                                for o, r in sorted(zip(all_obls, results), key=lambda x: -(x[1].get('wall_s') or 0))[:5]],
+        'solver_budget_s': {'z3': solve.Z3_TIMEOUT_MS / 1000.0 * (4 if tier == 'thorough' else 1), 'cvc5': solve.CVC5_TIMEOUT_MS / 1000.0 * (4 if tier == 'thorough' else 1),
+                            'load_factor_applied': round(solve.load_factor(), 2)},
         'tool_limits': tool_limits,
         'undecided': undecided,
         'runtime_contract_sweep': {'label': 'bounded (not counted as proved)', 'per_contract': native_stats,
